@@ -1,8 +1,8 @@
 (* C13 — Bit stream: reads return exactly what was written, packed back to back.
    This file contains the property theorems and nothing else; each is closed by `exact` of a lemma
    proved in Proofs/, and its axioms are printed beneath it. *)
-From Coq Require Import List NArith.
-From FFSM2 Require Import Model.Bits Model.BitStream Proofs.BitsProofs Proofs.BitStreamProofs.
+From Coq Require Import List NArith ZArith.
+From FFSM2 Require Import Model.Bits Model.BitStream Proofs.BitsProofs Proofs.BitStreamProofs Model.Cxx Generated.LeafCode Proofs.LeafCodeProofs.
 Import ListNotations.
 Local Open Scope N_scope.
 
@@ -47,6 +47,25 @@ Print Assumptions C13_bitWidth_exact.
 Theorem C13_width_suffices : forall n k, 1 <= n <= 255 -> k < n -> k < 2 ^ bitWidth n.
 Proof. exact width_suffices. Qed.
 Print Assumptions C13_width_suffices.
+
+(* The tie to the source, by proof: Generated/LeafCode.v is the body of bitWidth() as clang's typed AST of /repo's current
+   utility.hpp gives it (tools/leafcode.py, regenerated on every run); run in the interpreter of Model/Cxx.v (C++ integer
+   semantics: promotions, wrap-around, undefined shifts) it returns the model's bitWidth for every 32-bit argument. *)
+Theorem C13_source_bitWidth_is_the_model : forall v : Z, (0 <= v < 2 ^ 32)%Z ->
+  call1 leaf_ftable bitWidth_fn v = Some (Z.of_N (bitWidth (Z.to_N v))).
+Proof. exact src_bitWidth. Qed.
+Print Assumptions C13_source_bitWidth_is_the_model.
+
+(* The same for BitWriteStreamT<>::write<W>() with W <= 8 (item type uint8_t), W symbolic: for every width, item, cursor and buffer
+   contents that fit, running the translated body - the loop included - never faults (no out-of-range index, no undefined shift
+   or signed overflow) and leaves exactly the model's buffer and cursor. *)
+Theorem C13_source_write_is_the_model : forall W item c buf,
+  1 <= W <= 8 -> item < 256 -> c < 256 -> Forall (fun x => x < 256) buf ->
+  c + W <= 8 * N.of_nat (length buf) -> (length buf <= 32)%nat ->
+  result (run leaf_ftable (width_const W) BitWriteStreamT_100__write_5 [Z.of_N item] (cursor_fld c) (stream_obj buf))
+  = let '(buf', c') := write buf c W item in Some (None, cursor_fld c', stream_obj buf').
+Proof. exact src_write8. Qed.
+Print Assumptions C13_source_write_is_the_model.
 
 (* the hypotheses are satisfiable and the statement is not vacuous: a 3-bit field at offset 5 of a 2-byte buffer *)
 Example C13_nonvacuous :
